@@ -558,13 +558,13 @@ theorem addConn_erase {l : List Nat} (_h : l.Nodup) (c : Nat) : (addConn l c).er
 def NoLeakBut (srv : Server) (sid : Nat) : Prop :=
   ∀ ss ∈ srv.sessions, ss.id ≠ sid → ss.conns = [] → isStreaming ss.state = true ∧ ss.transport ≠ some .tcp
 
-theorem runInSession_inv {srv : Server} (h : WFc srv) (cfg : Config) {ss : Session} {cn : Conn} (r : Request)
+theorem runInSessionWith_inv {srv : Server} (h : WFc srv) (cfg : Config) {ss : Session} {cn : Conn} (r : Request)
     (hN : NoLeakBut srv ss.id) (hm : ss ∈ srv.sessions) (hcn : cn ∈ srv.conns)
     (hl : cn.sess = none ∨ cn.sess = some ss.id) :
-    WFc (runInSession cfg srv cn.id ss r).1 ∧ NoLeak (runInSession cfg srv cn.id ss r).1 := by
+    WFc (runInSessionWith cfg srv cn.id ss r).1 ∧ NoLeak (runInSessionWith cfg srv cn.id ss r).1 := by
   have hid := sessHandle_id cfg ss cn.id r
   have hco := sessHandle_conns cfg ss cn.id r
-  unfold runInSession
+  unfold runInSessionWith
   dsimp only
   split
   · rename_i hend
@@ -592,11 +592,52 @@ theorem runInSession_inv {srv : Server} (h : WFc srv) (cfg : Config) {ss : Sessi
     · exact hN x hx3 hne3
 
 
+theorem runInSession_inv {srv : Server} (h : WFc srv) (cfg : Config) {ss : Session} {cn : Conn} (r : Request)
+    (hN : NoLeakBut srv ss.id) (hm : ss ∈ srv.sessions) (hcn : cn ∈ srv.conns)
+    (hl : cn.sess = none ∨ cn.sess = some ss.id) :
+    WFc (runInSession cfg srv cn.id ss r).1 ∧ NoLeak (runInSession cfg srv cn.id ss r).1 :=
+  runInSessionWith_inv h cfg _ hN hm hcn hl
+
 theorem NoLeak.but {srv : Server} (h : NoLeak srv) (sid : Nat) : NoLeakBut srv sid :=
   fun x hx _ => h x hx
 
 /-- creating a session with its author already in the set and then handling the request is the
 same as creating it empty: the request case adds the connection anyway -/
+theorem runInSessionWith_create_eq (cfg : Config) (srv : Server) (cn : Conn) (r : Request) (log : List Ev) :
+    runInSessionWith cfg
+      { srv with sessions := srv.sessions ++ [{ id := srv.nextSid, authorIp := cn.ip, conns := [cn.id] }],
+                 nextSid := srv.nextSid + 1, log := log }
+      cn.id { id := srv.nextSid, authorIp := cn.ip, conns := [cn.id] } r =
+    runInSessionWith cfg
+      { srv with sessions := srv.sessions ++ [{ id := srv.nextSid, authorIp := cn.ip, conns := [] }],
+                 nextSid := srv.nextSid + 1, log := log }
+      cn.id { id := srv.nextSid, authorIp := cn.ip, conns := [] } r := by
+  have hs : sessHandle cfg { id := srv.nextSid, authorIp := cn.ip, conns := [cn.id] } cn.id r =
+      sessHandle cfg { id := srv.nextSid, authorIp := cn.ip, conns := [] } cn.id r := by
+    unfold sessHandle
+    simp [addConn]
+  have hid := sessHandle_id cfg { id := srv.nextSid, authorIp := cn.ip, conns := [] } cn.id r
+  unfold runInSessionWith
+  rw [hs]
+  simp only [putSession, List.map_append, List.map_cons, List.map_nil, hid, beq_self_eq_true, if_true]
+
+/-- … and the other sessions' ports are looked at in the same way -/
+theorem portBusy_create_eq (cfg : Config) (srv : Server) (cn : Conn) (r : Request) (log : List Ev) :
+    portBusy cfg
+      { srv with sessions := srv.sessions ++ [{ id := srv.nextSid, authorIp := cn.ip, conns := [cn.id] }],
+                 nextSid := srv.nextSid + 1, log := log }
+      { id := srv.nextSid, authorIp := cn.ip, conns := [cn.id] } r =
+    portBusy cfg
+      { srv with sessions := srv.sessions ++ [{ id := srv.nextSid, authorIp := cn.ip, conns := [] }],
+                 nextSid := srv.nextSid + 1, log := log }
+      { id := srv.nextSid, authorIp := cn.ip, conns := [] } r := by
+  unfold portBusy
+  split
+  · rfl
+  · split
+    · rfl
+    · simp [List.any_append]
+
 theorem runInSession_create_eq (cfg : Config) (srv : Server) (cn : Conn) (r : Request) (log : List Ev) :
     runInSession cfg
       { srv with sessions := srv.sessions ++ [{ id := srv.nextSid, authorIp := cn.ip, conns := [cn.id] }],
@@ -606,14 +647,8 @@ theorem runInSession_create_eq (cfg : Config) (srv : Server) (cn : Conn) (r : Re
       { srv with sessions := srv.sessions ++ [{ id := srv.nextSid, authorIp := cn.ip, conns := [] }],
                  nextSid := srv.nextSid + 1, log := log }
       cn.id { id := srv.nextSid, authorIp := cn.ip, conns := [] } r := by
-  have hs : sessHandle cfg { id := srv.nextSid, authorIp := cn.ip, conns := [cn.id] } cn.id r =
-      sessHandle cfg { id := srv.nextSid, authorIp := cn.ip, conns := [] } cn.id r := by
-    unfold sessHandle
-    simp [addConn]
-  have hid := sessHandle_id cfg { id := srv.nextSid, authorIp := cn.ip, conns := [] } cn.id r
   unfold runInSession
-  rw [hs]
-  simp only [putSession, List.map_append, List.map_cons, List.map_nil, hid, beq_self_eq_true, if_true]
+  rw [portBusy_create_eq, runInSessionWith_create_eq]
 
 theorem inSession_inv {srv : Server} (h : WFc srv) (hN : NoLeak srv) (cfg : Config) {cn : Conn}
     (hcn : cn ∈ srv.conns) (r : Request) (create : Bool) :
@@ -757,12 +792,12 @@ theorem endSession_conns_mem {srv : Server} {sid : Nat} {ss : Session} (hf : fin
   rw [hf]
   exact List.mem_filter.mpr ⟨hx, by simpa using hn⟩
 
-theorem runInSession_keeps {srv : Server} (h : WFc srv) (cfg : Config) {ss : Session} {cn : Conn} (r : Request)
+theorem runInSessionWith_keeps {srv : Server} (h : WFc srv) (cfg : Config) {ss : Session} {cn : Conn} (r : Request)
     (hm : ss ∈ srv.sessions) (hcn : cn ∈ srv.conns) (hl : cn.sess = none ∨ cn.sess = some ss.id) :
-    ∃ x ∈ (runInSession cfg srv cn.id ss r).1.conns, x.id = cn.id := by
+    ∃ x ∈ (runInSessionWith cfg srv cn.id ss r).1.conns, x.id = cn.id := by
   have hid := sessHandle_id cfg ss cn.id r
   have hco := sessHandle_conns cfg ss cn.id r
-  unfold runInSession
+  unfold runInSessionWith
   dsimp only
   split
   · rename_i hend
@@ -781,6 +816,11 @@ theorem runInSession_keeps {srv : Server} (h : WFc srv) (cfg : Config) {ss : Ses
     rw [hrid, hco]
     exact fun hin => ((h.sconnNodup ss hm).mem_erase_iff.mp hin).1 rfl
   · exact ⟨relink cn.id (some ss.id) cn, List.mem_map.mpr ⟨cn, hcn, rfl⟩, relink_id _ _ _⟩
+
+theorem runInSession_keeps {srv : Server} (h : WFc srv) (cfg : Config) {ss : Session} {cn : Conn} (r : Request)
+    (hm : ss ∈ srv.sessions) (hcn : cn ∈ srv.conns) (hl : cn.sess = none ∨ cn.sess = some ss.id) :
+    ∃ x ∈ (runInSession cfg srv cn.id ss r).1.conns, x.id = cn.id :=
+  runInSessionWith_keeps h cfg _ hm hcn hl
 
 theorem inSession_keeps {srv : Server} (h : WFc srv) (cfg : Config) {cn : Conn}
     (hcn : cn ∈ srv.conns) (r : Request) (create : Bool) :
